@@ -536,6 +536,7 @@ func C05(r *ev.Run) {
 		r.Case(rec.Src, strings.Count(rec.Src, "\n") > 6)
 	}
 	r.Sample(map[string]interface{}{"source": recs[0].Src, "log": recs[0].Log, "result": recs[0].Res})
+	runDirected(r, "C05")
 	bad, ok := validateTrace(r, "Scope_Trace", "Scope_Trace.cfg", trace, 60*time.Minute)
 	if !ok {
 		return
